@@ -42,6 +42,23 @@ def strat_case(draw, parsers="some", containers=("df", "df", "lf_full"), drop_ra
         case.update(c08._add_parsers(draw, base))
         if case["spec"].get("strict") is False and draw(st.integers(0, 2)) == 0:
             case["spec"]["strict"] = "filter"
+    if parsers == "many" and draw(st.integers(0, 5)) == 0:
+        # readings that arrive as text: a float column as strings, missing ones spelled "NaN" (or absent), coerced back
+        # and filled with a default
+        tcs = {t["name"]: t for t in case["table"]["columns"]}
+        cands = [c for c in case["spec"]["columns"] if c.get("dtype") == "float64" and c["name"] in tcs
+                 and tcs[c["name"]]["phys"] == "float64" and tcs[c["name"]]["cells"]
+                 and c["name"] not in (case["spec"].get("unique") or [])]
+        if cands:
+            c = draw(st.sampled_from(cands))
+            t = tcs[c["name"]]
+            nn = [v for v in t["cells"] if v is not None]
+            i = draw(st.integers(0, len(t["cells"]) - 1))
+            t["cells"] = [("NaN" if (v is None and draw(st.booleans())) or j == i else None if v is None else repr(float(v)))
+                          for j, v in enumerate(t["cells"])]
+            t["phys"] = "object"
+            c["coerce"], c["default"], c["unique"] = True, (draw(st.sampled_from(nn)) if nn else 0.5), False
+            case["parser_ops"] = list(case.get("parser_ops") or []) + ["coerce", "default", "nan-text"]
     if regex_rate and draw(st.integers(1, 10)) <= regex_rate:
         # one present column is declared through a regular expression (without built-in checks: polars documents
         # those as unsupported on regex-selected columns); parsing options on it must still work
@@ -91,7 +108,7 @@ def strat_case(draw, parsers="some", containers=("df", "df", "lf_full"), drop_ra
 # ---------------------------------------------------------------------------------- helpers
 
 
-def domain_skip(spec, table, semantics=True):
+def domain_skip(spec, table, semantics=True, cross_backend=True):
     """reason the (spec, table) pair is outside the sound polars/reference domain, else None
     (semantics=False: only what cannot be built / is not a schema definition - for oracles that judge the error channel,
     not the verdict)"""
@@ -109,6 +126,8 @@ def domain_skip(spec, table, semantics=True):
         return None
     if na_false_undefined(spec, table):
         return "ignore_na=False with a predicate that is true on NaN (pandas) / null on null (polars): undefined"
+    if not cross_backend:  # (only what validate returns is judged: what a cast turns a cell into is polars' business)
+        return None
     return temporal_cross_kind(spec, table) or coercion_outside_shared_semantics(spec, table)
 
 
@@ -422,7 +441,7 @@ def eval_c03(case):
     """whatever validate returns passes strip(S) (pandera and reference) and re-validation returns it unchanged."""
     ev = Eval()
     spec, table = case["spec"], case["table"]
-    why = domain_skip(spec, table)
+    why = domain_skip(spec, table, cross_backend=False)
     if why:
         ev.skipped = why
         return ev
